@@ -21,7 +21,7 @@ def rule_a(repo, chk):
                         'is_global_search=False; Importer.follow passes get_sys_path() + detected modifications (a fresh list) or the fixed relative base')
     f = repo.find(IMP, 'import_module')
     gi = calls_in(f, 'get_module_info')
-    chk.floor('C10.a', len(gi), 2)
+    chk.floor('C10.a', len(gi), 1)
     for c in gi:
         glob = kwarg(c, 'is_global_search')
         if isinstance(glob, ast.Constant) and glob.value is True:
